@@ -179,7 +179,7 @@ def run(ctx):
             "generated_v_changed_this_run": bool(R.generated_changed),
         },
         "outside_judged_domain": R.behaviour,
-        "translator_wall_s": round(t_regen, 1),
+        "translator_wall_s": round(t_regen, 1), "translator_phases_s": getattr(R, "timing", {}),
     })
 
 
